@@ -22,7 +22,7 @@ type ShimProfile struct {
 }
 
 // AllKeyIDClasses lists every KeyID class of the generator.
-var AllKeyIDClasses = []string{"ysshca0", "ysshca1", "ysshca2", "ysshca3", "ysshca4", "ysshca5", "ysshca6", "ysshca7", "ysshca8", "ysshca9", "ysshcabig", "ysshcahuge", "missing", "version", "inconsistent", "text", "empty"}
+var AllKeyIDClasses = []string{"ysshca0", "ysshca1", "ysshca2", "ysshca3", "ysshca4", "ysshca5", "ysshca6", "ysshca7", "ysshca8", "ysshca9", "ysshcabig", "ysshcahuge", "casevar", "missing", "version", "inconsistent", "text", "empty"}
 
 func isRSAName(k string) bool { return strings.HasPrefix(k, "rsa") }
 
@@ -45,7 +45,7 @@ func GenFaultRules(t *rapid.T, label string) []FaultRule {
 }
 
 // ShimGenNote describes what every GenShimCase history draws besides its operations.
-const ShimGenNote = " Every history draws 1..6 certificates (a sixth of the later ones a twin of an earlier one: same key, serial, type and KeyID, other principals) and the shim's listing-order option PubKeyComp (default, by bytes, by type, by fingerprint)."
+const ShimGenNote = " Signatures are also asked of signers the caller kept from an earlier Signers() call of the same history (operation signheld; judged like any other signature). Every history draws 1..6 certificates (a sixth of the later ones a twin of an earlier one: same key, serial, type and KeyID, other principals) and the shim's listing-order option PubKeyComp (default, by bytes, by type, by fingerprint)."
 
 // GenShimCase draws a shim history.
 func GenShimCase(t *rapid.T, pr ShimProfile) ShimCase {
@@ -106,7 +106,7 @@ func GenShimCase(t *rapid.T, pr ShimProfile) ShimCase {
 		c.BadAddress = true
 	}
 	var hardCerts []int
-	kinds := []string{"oobremoveall", "list", "list", "list", "list", "signers", "signers", "sign", "sign", "sign", "sign", "signvia", "addkey", "addkey", "addcert", "addcert", "addhard", "addhard", "addhard", "addhard", "remove", "remove", "removeall", "oobremove", "oobremove", "oobadd"}
+	kinds := []string{"oobremoveall", "list", "list", "list", "list", "signers", "signers", "sign", "sign", "sign", "sign", "signvia", "signheld", "addkey", "addkey", "addcert", "addcert", "addhard", "addhard", "addhard", "addhard", "remove", "remove", "removeall", "oobremove", "oobremove", "oobadd"}
 	if lapsing {
 		kinds = append(kinds, "lapse", "lapse")
 	}
@@ -131,7 +131,7 @@ func GenShimCase(t *rapid.T, pr ShimProfile) ShimCase {
 		l := fmt.Sprintf("op%d", i)
 		op := Op{Kind: rapid.SampledFrom(kinds).Draw(t, l), Cert: -1}
 		switch op.Kind {
-		case "sign", "signvia":
+		case "sign", "signvia", "signheld":
 			op.Key, op.Cert = genTarget(l + "T")
 			keyName := op.Key
 			if op.Cert >= 0 {
